@@ -387,6 +387,7 @@ def new_cov():
             "call_patterns_written": 0, "call_patterns_identical_image": 0, "octets_cut": 0, "images_reduced_ops": 0}
 
 
+UNIT_LIMIT = 60         # violations after which a work unit stops
 EDGE = 2        # body octets next to the record header / record end that always get the complete operation set
 
 
@@ -420,6 +421,9 @@ def work(arg):
         # the empty history contributes the empty image, a 1-message history also offset 0 .. see run()
         first = lo + 1 if k else 0
         for cut in range(first, len(img) + 1):
+            if len(out) >= UNIT_LIMIT:
+                cov["units_cut_short"] = 1          # nothing is gained by enumerating on
+                break
             deep = (quick or k == 4) and (lo + 3 + EDGE <= cut <= len(img) - 1 - EDGE)
             evaluate_image(img, cut, stored, ends, ops_reduced if deep else ops, out, case, stats, cov)
             cov["octets_cut"] += 1
@@ -607,6 +611,9 @@ def work_interleaved(arg):
         for i, n in enumerate(ns):
             alph.append(il_reads_full(n) if (mode == "full" or i == k - 1) else il_reads_small(n))
         for reads in itertools.product(*alph):
+            if len(out) >= 5 * UNIT_LIMIT:
+                cov["units_cut_short"] = 1
+                break
             steps = []
             if reads[0] is not None:
                 steps.append(["read", reads[0]])
